@@ -132,11 +132,17 @@ def classify(prop, case, res, idx):
         if twice:
             return "input-beneath-modal:same-screen-twice-on-stack"
     if prop == "C06" and kind == "INPUT":
-        # finding F15: a later, refused request of the same screen overwrote the per-screen input args
-        if any(e[0] == 19 and e[1] == 11 for e in before) and any(e[0] == 12 for e in before):
-            ready = [e for e in before if e[0] == 19 and e[1] == 12]
-            if ready and ready[-1][3] == ev[3] and ev[2][0] in [e[2][0] for e in before if e[0] == 19 and e[1] == 18]:
-                return "args-overwritten-by-refused-request"
+        # finding F15: InputManager._input_args is one slot per screen: a LATER request of the same screen
+        # (refused, or still outstanding) overwrote the args of the request this line answers
+        ready = [e for e in before if e[0] == 19 and e[1] == 12 and e[2][1] == 1]
+        if ready:
+            n = ready[-1][2][0]
+            reqs = [e[2] for e in before if e[0] == 19 and e[1] == 18]           # [scr, args, handler]
+            mine = [r for r in reqs if r[2] == n]
+            if mine and mine[0][0] == ev[2][0] and mine[0][1] != ev[2][1] and ready[-1][3] == ev[3]:
+                later = [r for r in reqs if r[0] == ev[2][0] and r[2] > n and r[1] == ev[2][1]]
+                if later:
+                    return "args-overwritten-by-later-request-of-same-screen"
     return "%s:%s" % (prop, kind)
 
 
@@ -175,6 +181,30 @@ def run(chk, tier, prop):
         c = copy.deepcopy(c); c[0] = 100 + 6 * len(i[1])
         kept.append(c); kimpl.append(i)
         chk.hist("outcome=%s" % (i[0][-1] if i[0] else "none"))
+    # sessions on which the implementation did not come back within the short limit
+    nretry = 0
+    for c in hangs:
+        c2 = copy.deepcopy(c); c2[0] = 4000
+        m = lib.model_run("screen", [c2[:6]])[0]
+        if m[0] and m[0][-1] == 5:
+            chk.hist("hang:model-diverges-too(F14)")       # wait_on_input spins after the loops were told to stop
+            if prop == "C09":
+                chk.violation("blocking-wait-spins-after-stop", "wait_on_input spins after the loops were told to stop",
+                              dict(kind="screen", prop=prop, case=c), found=True)
+            continue
+        # the model finishes: run the session once more, alone, with a generous limit (a loaded machine must not
+        # produce alarms); only a session that hangs twice counts as hanging
+        if nretry >= 10:
+            chk.hist("hang:not-retried"); continue
+        nretry += 1
+        again = screen_impl.run_alone(c)
+        if again and again[0] in ("HANG", "ERROR"):
+            chk.violation("impl-hangs", "the implementation hangs on a session that the model finishes with outcomes %s" % m[0],
+                          dict(kind="screen", prop=prop, case=c, model_tail=pretty(m[1])[-30:]), found=True)
+        elif 5 not in again[0]:
+            chk.hist("hang:slow-machine-retry-ok")
+            c3 = copy.deepcopy(c); c3[0] = 100 + 6 * len(again[1])
+            kept.append(c3); kimpl.append(again)
     models = []
     CH = 2000
     for a in range(0, len(kept), CH):
@@ -227,25 +257,6 @@ def run(chk, tier, prop):
             nbad += 1
         if nbad > 30:
             break
-    # sessions on which the implementation did not come back
-    for c in hangs[:20]:
-        c2 = copy.deepcopy(c); c2[0] = 4000
-        m = lib.model_run("screen", [c2[:6]])[0]
-        spins = m[0] and m[0][-1] == 5
-        if spins:
-            chk.hist("hang:model-diverges-too(F14)")
-            if prop in ("C09",):
-                chk.violation("blocking-wait-spins-after-stop", "wait_on_input spins after the loops were told to stop",
-                              dict(kind="screen", prop=prop, case=c), found=True)
-        else:
-            # the model finishes: run the session once more, alone, with a generous limit (a loaded machine must
-            # not produce alarms); only a session that hangs twice counts as hanging
-            again = screen_impl.run_alone(c)
-            if again and again[0] == "HANG":
-                chk.violation("impl-hangs", "the implementation hangs on a session that the model finishes with outcomes %s" % m[0],
-                              dict(kind="screen", prop=prop, case=c, model_tail=pretty(m[1])[-30:]), found=True)
-            else:
-                chk.hist("hang:slow-machine-retry-ok")
     chk.extra["sessions_compared"] = len(kept)
     chk.extra["sessions_hanging_in_both_model_and_implementation"] = len(hangs)
 
